@@ -49,11 +49,14 @@ def statp_decodes_in_wire_order(ctx, repo, cname, fname):
     ctx.ob("R3", f"{fi.qual}::records-in-wire-order", ok,
            f"{fi.qual}: a STATP carrying records [(pos0, w0), (pos1, w1)] is not decoded into that list in that order: {why}", fi.loc,
            sample={"rule": "R3", "handler": fi.qual, "decoded": str(got)[:200]})
+    shared_interp = Interp(repo, max_depth=10)
     # concrete messages as the repository's own builder makes them, including the short final record that reports a
     # one-byte write (position + one data byte): nothing the message carries may be dropped
     for label, changes in (("single-byte-change", [(700, b"\x5a")]), ("word-then-byte-change", [(10, b"\x01\x02"), (700, b"\x5a")]),
                            ("same-position-twice", [(300, b"\x00\x07"), (300, b"\x00\x09")]), ("no-change", [])):
-        interp = Interp(repo, max_depth=10)
+        # one interpreter for all four messages, a fresh handler instance each: what an earlier instance decoded must not
+        # show up in a later one (class-level state is one object per class in the interpreter, as in Python)
+        interp = shared_interp
         try:
             msg = interp.call(repo.method(SYNC_H, "report_changes"), None, [sock, list(changes)])
             wire = c04.wire_of(msg)
